@@ -97,7 +97,8 @@ RunSE(cfg, table, input) ==
       final == IF cfg.rename = <<>> THEN named ELSE [named EXCEPT !.name = Expand2(cfg.rename, env, env, env, 1)]
       fate == Fate(cfg, final, final, st.ms # <<>>, FALSE)
   IN [o1 |-> final, o2 |-> final, ms1 |-> st.ms, ms2 |-> <<>>, isrc |-> st.isrc, fate |-> fate,
-      dest |-> Destination(cfg, fate, st.ms, <<>>), pre1 |-> pre, s1 |-> st.searched]
+      dest |-> Destination(cfg, fate, st.ms, <<>>), pre1 |-> pre, s1 |-> st.searched,
+      pa1 |-> IF cfg.polya THEN Len(st.r.seq) - Len(PolyAStage(st.r, FALSE).seq) ELSE 0, pa2 |-> 0]
 
 RunPE(cfg, table, in1, in2) ==
   LET p1 == PreAdapter(cfg, in1, FALSE)
@@ -116,7 +117,9 @@ RunPE(cfg, table, in1, in2) ==
       o2 == IF cfg.rename = <<>> THEN n2 ELSE [n2 EXCEPT !.name = Expand2(cfg.rename, f1, f2, f2, 1)]
       fate == Fate(cfg, o1, o2, st.ms1 # <<>>, st.ms2 # <<>>)
   IN [o1 |-> o1, o2 |-> o2, ms1 |-> st.ms1, ms2 |-> st.ms2, isrc |-> st.isrc, fate |-> fate,
-      dest |-> Destination(cfg, fate, st.ms1, st.ms2), pre1 |-> p1, s1 |-> st.s1]
+      dest |-> Destination(cfg, fate, st.ms1, st.ms2), pre1 |-> p1, s1 |-> st.s1,
+      pa1 |-> IF cfg.polya THEN Len(st.r1.seq) - Len(PolyAStage(st.r1, FALSE).seq) ELSE 0,
+      pa2 |-> IF cfg.polya THEN Len(st.r2.seq) - Len(PolyAStage(st.r2, TRUE).seq) ELSE 0]
 
 Needs(cfg, table, in1, in2) ==
   IF cfg.paired THEN NeedsPE(cfg, table, PreAdapter(cfg, in1, FALSE), PreAdapter(cfg, in2, TRUE))
